@@ -156,6 +156,15 @@ pub fn data_bytes(len_sel: u16, content: u16) -> Vec<u8> {
         .map(|i| (content as usize).wrapping_mul(31).wrapping_add(i * 37 + 1) as u8)
         .collect();
     match content & 15 {
+        // a family of near-duplicates across vertices: one fixed text per length class (17, 24,
+        // 40 or 64 bytes) that differs from its siblings in ONE byte somewhere in the middle
+        // (two time stamps a day apart, two records with one field changed)
+        4 | 5 => {
+            let flen = [17usize, 24, 40, 64][(content as usize >> 4) & 3];
+            v = (0..flen).map(|i| b"2026-09-26T10:15:00Z record=0042 status=ok; "[i % 44]).collect();
+            let pos = 8 + (content as usize >> 6) % (flen - 16);
+            v[pos] = b'0' + ((content >> 10) % 10) as u8;
+        }
         0 => v.iter_mut().for_each(|b| *b = 0),              // all zero bytes
         1 => {
             if let Some(b) = v.last_mut() {
@@ -463,7 +472,7 @@ pub fn resolve(seed: &OpSeed, m: &Model, profile: Profile) -> Option<Call> {
             // a destination of another capacity that already holds a few vertices, some of them
             // above the source's capacity
             let cap = [m.cap, m.cap + 1, m.cap * 2 + 3, (m.cap / 2).max(1), 512][idx(a, 5)];
-            let ids: Vec<usize> = [b, c, d].iter().map(|x| idx(*x, cap)).collect();
+            let ids: Vec<usize> = [b, c, d, b ^ c.rotate_left(7)].iter().map(|x| idx(*x, cap)).collect();
             Call::CloneInto { cap, ids }
         }
         Kind::SliceSome => {
